@@ -448,9 +448,11 @@ Fixpoint map_res (f : value -> result) (l : list value) : list value + exc :=
               end
   end.
 
-(* getattr(r, field, NONE_OBJECT) inside the helpers: field must be the name of a field or of nothing *)
+(* _field_value(r, field) inside the helpers: a name starting with "__" is refused (InvalidOperation), otherwise
+   getattr(r, field, NONE_OBJECT); field must be the name of a field or of nothing *)
 Definition helper_getattr (R : record) (f : value) : result :=
   match f with
+  | VStr (95%N :: 95%N :: _) => Exc EInvalidOperation
   | VStr s =>
       match find (fun fd => match fd with (n, _, _) => str_eqb (string_to_str n) s end) (rec_fields R) with
       | Some (_, _, v) => Val v
@@ -875,10 +877,16 @@ End Python.
 
 (* ------------------------------------------------------------------------------------------------ *)
 (* PART 3: RecordContextMatcher._eval                                                                *)
-Record facts := { chained : bool; ifs_honoured : bool; tm_keeps_attrs : bool }.
+Record facts := { chained : bool; ifs_honoured : bool; tm_keeps_attrs : bool; genvars_scoped : bool;
+                  binop_lookup_first : bool }.
 Definition gen_facts : facts :=
   {| chained := compare_is_chained; ifs_honoured := comprehension_ifs_honoured;
-     tm_keeps_attrs := typematcher_recursion_keeps_attrs |}.
+     tm_keeps_attrs := typematcher_recursion_keeps_attrs; genvars_scoped := generator_variables_scoped;
+     binop_lookup_first := binop_operator_lookup_first |}.
+
+(* self.data.pop(name, None) for every loop variable of a finished generator expression *)
+Definition remove_names (xs : list string) (d : names) : names :=
+  filter (fun kv => negb (in_list (fst kv) xs)) d.
 
 Section Interpreter.
 Variable F : facts.
@@ -1052,6 +1060,10 @@ Fixpoint interp (d : names) (e : expr) {struct e} : result * names :=
           end
       end
   | EBinOp op l r =>
+      (* [binop_lookup_first]: op = AST_OPERATORS[type(node.op)] is looked up BEFORE the operands are evaluated *)
+      if binop_lookup_first F && match table_op2 (binop_kind op) with None => true | Some _ => false end
+      then (Exc EKeyError, d)
+      else
       match interp d l with
       | (Val a, d1) =>
           match interp d1 r with
@@ -1115,7 +1127,13 @@ Fixpoint interp (d : names) (e : expr) {struct e} : result * names :=
                | VFunc q =>
                    if negb (String.eqb q (quant_name all_)) then (Exc EUnmodelled, d)
                    else if existsb (fun g => in_dom (comp_target g) d) gens then (Exc EInvalidOperation, d)
-                   else match i_gens interp all_ elt gens d with (s, d') => (scan_result all_ s, d') end
+                   else match i_gens interp all_ elt gens d with
+                        | (s, d') =>
+                            (* generator_expr's `finally`: the loop variables leave self.data when the generator is
+                               exhausted, closed by any()/all() or aborted by an exception [genvars_scoped] *)
+                            (scan_result all_ s,
+                             if genvars_scoped F then remove_names (map comp_target gens) d' else d')
+                        end
                | _ => (Exc EUnmodelled, d)
                end
       end
@@ -1158,14 +1176,11 @@ Definition all_defined (R : record) (e : expr) : Prop := exists v, py_strict R e
 
 (* ------------------------------------------------------------------------------------------------ *)
 (* the documented language as a predicate on expressions                                             *)
-Definition no_gvars (e : expr) : bool := match gvars e with [] => true | _ => false end.
 Definition callee_shape (f : expr) : bool := match f with EName _ | EAttr _ _ => true | _ => false end.
 
 (* [bpos]: the expression stands where only its truth value is used (top level, operand of and/or/not,
    condition or element of any()/all()).  and/or are in the language in such positions only: elsewhere their
-   VALUE (an operand in Python, a bool in the interpreter) would be observed.  A generator expression may not
-   sit inside the part of another one that is evaluated once per element (its condition, its element, the
-   iterable of a second `for`): the interpreter cannot enter a generator expression twice. *)
+   VALUE (an operand in Python, a bool in the interpreter) would be observed. *)
 Fixpoint lang (bpos : bool) (e : expr) {struct e} : bool :=
   match e with
   | EConst _ | EName _ => true
@@ -1178,14 +1193,10 @@ Fixpoint lang (bpos : bool) (e : expr) {struct e} : bool :=
   | ECall f args kws =>
       callee_shape f && lang false f && forallb (lang false) args && forallb (fun kw => lang false (snd kw)) kws
   | EQuant _ elt gens =>
-      lang true elt && no_gvars elt &&
+      lang true elt &&
       match gens with
       | [] => false
-      | Comp _ it cs :: gs =>
-          lang false it && forallb (fun c => lang true c && no_gvars c) cs &&
-          forallb (fun g => match g with
-                            | Comp _ it' cs' => lang false it' && no_gvars it' && forallb (fun c => lang true c && no_gvars c) cs'
-                            end) gs
+      | _ :: _ => forallb (fun g => match g with Comp _ it cs => lang false it && forallb (lang true) cs end) gens
       end
   | EOther _ => false
   end.
@@ -1194,7 +1205,31 @@ Definition in_language (e : expr) : bool := lang true e.
 
 Fixpoint nodupb (l : list string) : bool :=
   match l with [] => true | x :: t => negb (in_list x t) && nodupb t end.
+Definition disjointb (xs ys : list string) : bool := forallb (fun x => negb (in_list x ys)) xs.
 
-(* generator variable names: pairwise distinct, none of the names `matches` defines, no field-type name *)
+(* the generator variables bound inside one `for` clause (by generator expressions in its iterable / conditions) *)
+Definition comp_inner (g : comp) : list string :=
+  match g with Comp _ it cs => gvars it ++ flat_map gvars cs end.
+
+(* No generator expression re-binds a variable of a generator expression that encloses it (Python allows that; the
+   interpreter's single namespace does not), and the `for` clauses of one generator expression bind distinct
+   names.  Sibling generator expressions may use the same names. *)
+Fixpoint scoped (e : expr) {struct e} : bool :=
+  match e with
+  | EConst _ | EName _ | EOther _ => true
+  | EAttr o _ => scoped o
+  | EList es | ETuple es | EBoolOp _ es => forallb scoped es
+  | EUnary _ a => scoped a
+  | EBinOp _ l r => scoped l && scoped r
+  | ECompare l rest => scoped l && forallb (fun oc => scoped (snd oc)) rest
+  | ECall f args kws => scoped f && forallb scoped args && forallb (fun kw => scoped (snd kw)) kws
+  | EQuant _ elt gens =>
+      nodupb (map comp_target gens) &&
+      disjointb (map comp_target gens) (gvars elt ++ flat_map comp_inner gens) &&
+      scoped elt &&
+      forallb (fun g => match g with Comp _ it cs => scoped it && forallb scoped cs end) gens
+  end.
+
+(* generator variable names: properly scoped, none of the names `matches` defines, no field-type name *)
 Definition fresh_vars (e : expr) : bool :=
-  nodupb (gvars e) && forallb (fun x => negb (in_dom x std_data) && negb (in_list x whitelist_roots)) (gvars e).
+  scoped e && forallb (fun x => negb (in_dom x std_data) && negb (in_list x whitelist_roots)) (gvars e).
